@@ -45,6 +45,27 @@ Proof.
   now rewrite (rel_type_id _ _ Hst).
 Qed.
 
+Lemma rel_prop_type p p' : rel_prop p p' -> rel_schema (p_type p) (p_type p').
+Proof. destruct 1. assumption. Qed.
+
+Lemma rel_list_inv it mn mx s' : rel_schema (SList it mn mx) s' -> exists it', s' = SList it' mn mx /\ rel_schema it it'.
+Proof. intros H. inversion H; subst. eauto. Qed.
+Lemma rel_map_inv k v mn mx s' : rel_schema (SMap k v mn mx) s' ->
+  exists k' v', s' = SMap k' v' mn mx /\ rel_schema k k' /\ rel_schema v v'.
+Proof. intros H. inversion H; subst. eauto. Qed.
+Lemma rel_obj_inv id u ps s' : rel_schema (SObject id u ps) s' ->
+  exists ps1 ps', s' = SObject id u ps' /\
+    Forall2 (fun a b => fst a = fst b /\ rel_prop (snd a) (snd b)) ps ps1 /\ Permutation ps1 ps'.
+Proof. intros H. inversion H; subst. eauto. Qed.
+Lemma rel_oneof_inv ts ik f i s' : rel_schema (SOneOf ts ik f i) s' ->
+  exists ts1 ts', s' = SOneOf ts' ik f i /\
+    Forall2 (fun a b => fst a = fst b /\ rel_schema (snd a) (snd b)) ts ts1 /\ Permutation ts1 ts'.
+Proof. intros H. inversion H; subst. eauto. Qed.
+Lemma rel_scope_inv os root s' : rel_schema (SScope os root) s' ->
+  exists os1 os', s' = SScope os' root /\
+    Forall2 (fun a b => fst a = fst b /\ rel_schema (snd a) (snd b)) os os1 /\ Permutation os1 os'.
+Proof. intros H. inversion H; subst. eauto. Qed.
+
 Notation WFL := (all_nodes wf_local).
 
 (* the property list of a one-of member, on both sides *)
@@ -63,7 +84,7 @@ Proof.
                  |ks ks' vs vs' mn mx Hsk Hsv|id u ps ps1 ps' HFp HPp|ts ts1 ts' ik fld inl HFt HPt|id ns d
                  |os os1 os' root HFo HPo]; cbn [member_props]; try exact I.
   - (* object *)
-    split; [|exists ps1; split; assumption].
+    cbv beta iota. split; [|exists ps1; split; assumption].
     apply all_nodes_here in Han. cbn [wf_local] in Han. apply andb_prop in Han. tauto.
   - (* reference *)
     pose proof (rel_resolve e e' id ns He Hnd) as Hr.
@@ -71,7 +92,7 @@ Proof.
     destruct Hr as (Ho & _ & _).
     pose proof (inv_resolve wf_local e id ns o e2 Hae R1) as [_ Hno].
     destruct Ho; try exact I.
-    split; [|eexists; split; eassumption].
+    cbv beta iota. split; [|eexists; split; eassumption].
     apply all_nodes_here in Hno. cbn [wf_local] in Hno. apply andb_prop in Hno. tauto.
   - (* scope *)
     pose proof (all_nodes_here _ _ _ Han) as Hl. cbn [wf_local] in Hl.
@@ -81,7 +102,7 @@ Proof.
     cbn [all_nodes] in Han. apply andb_prop in Han as [_ Hch]. rewrite forallb_forall in Hch.
     specialize (Hch _ (alookup_in _ _ _ R1)). cbn [snd] in Hch.
     destruct Hlk; try exact I.
-    split; [|eexists; split; eassumption].
+    cbv beta iota. split; [|eexists; split; eassumption].
     apply all_nodes_here in Hch. cbn [wf_local] in Hch. apply andb_prop in Hch. tauto.
 Qed.
 
@@ -117,7 +138,7 @@ Proof.
     unfold property in *. apply andb_prop in Hl as [H1 H2]. apply andb_true_intro. split.
     + exact (eq_trans (rel_nodup rel_prop ps ps1 ps' HFp HPp) H1).
     + rewrite <- (forallb_perm _ ps1 ps' HPp).
-      apply (forallb_f2_imp _ _ _ _ _ HFp); [|exact H2].
+      refine (forallb_f2_imp _ _ _ _ _ HFp _ H2).
       intros a b _ [_ Hr] Hd. destruct He as (_ & _ & Hor). rewrite <- Hor. now rewrite (rel_default_ok _ _ _ Hr).
   - (* one-of *)
     apply andb_prop in Hl as [H1 H2]. apply andb_true_intro. split.
@@ -125,7 +146,7 @@ Proof.
       now rewrite <- (f2_okeys ts ts1 HFt).
     + rewrite <- (forallb_perm _ ts1 ts' HPt).
       cbn [all_nodes] in Han. apply andb_prop in Han as [_ Hch]. rewrite forallb_forall in Hch.
-      apply (forallb_f2_imp _ _ _ _ _ HFt); [|exact H2].
+      refine (forallb_f2_imp _ _ _ _ _ HFt _ H2).
       intros [k m] [k' m'] Hin [Hk Hm] Hw. cbn [fst snd] in *. subst k'.
       exact (wf_member_rel e e' ik fld inl k m m' He Hnd Hm Hae (Hch _ Hin) Hw).
   - (* reference *)
@@ -137,7 +158,7 @@ Proof.
     apply andb_prop in Hl as [Hl H3]. apply andb_prop in Hl as [H1 H2].
     apply andb_true_intro. split; [apply andb_true_intro; split|].
     + exact (eq_trans (rel_nodup rel_schema os os1 os' HFo HPo) H1).
-    + rewrite <- (forallb_perm _ os1 os' HPo). apply (forallb_f2_imp _ _ _ _ _ HFo); [|exact H2].
+    + rewrite <- (forallb_perm _ os1 os' HPo). refine (forallb_f2_imp _ _ _ _ _ HFo _ H2).
       intros [i o] [i' o'] _ [Hk Ho] Hh. cbn [fst snd] in *. subst i'. now rewrite (rel_head_has_id _ _ _ Ho).
     + now rewrite <- (rel_amem rel_schema root os os1 os' H1 HFo HPo).
 Qed.
@@ -156,39 +177,44 @@ Proof.
   - (* leaves *)
     pose proof (wf_local_rel e e' s s' He Hnd Hs Hae Han) as Hl.
     destruct Hs; try discriminate H; cbn [all_nodes]; now rewrite Hl.
-  - pose proof (wf_local_rel e e' _ s' He Hnd Hs Hae Han) as Hl.
-    inversion Hs as [| | | | | | | |sa sb mn0 mx0 Hs1| | | | |]; subst. cbn [all_nodes] in Han |- *. rewrite Hl. cbn [andb].
-    apply andb_prop in Han as [_ Hc]. exact (IHs e e' sb He Hnd Hs1 Hae Hc).
-  - pose proof (wf_local_rel e e' _ s' He Hnd Hs Hae Han) as Hl.
-    inversion Hs as [| | | | | | | | |ks ks' vs vs' mn0 mx0 Hsk Hsv| | | |]; subst. cbn [all_nodes] in Han |- *. rewrite Hl. cbn [andb].
+  - destruct (rel_list_inv _ _ _ _ Hs) as (it' & -> & Hs1).
+    pose proof (wf_local_rel e e' _ _ He Hnd Hs Hae Han) as Hl.
+    cbn [all_nodes] in Han |- *. rewrite Hl. cbn [andb].
+    apply andb_prop in Han as [_ Hc]. exact (IHs e e' it' He Hnd Hs1 Hae Hc).
+  - destruct (rel_map_inv _ _ _ _ _ Hs) as (k' & v' & -> & Hsk & Hsv).
+    pose proof (wf_local_rel e e' _ _ He Hnd Hs Hae Han) as Hl.
+    cbn [all_nodes] in Han |- *. rewrite Hl. cbn [andb].
     apply andb_prop in Han as [_ Hc]. apply andb_prop in Hc as [Hc1 Hc2]. apply andb_true_intro. split.
-    + exact (IHs1 e e' ks' He Hnd Hsk Hae Hc1).
-    + exact (IHs2 e e' vs' He Hnd Hsv Hae Hc2).
+    + exact (IHs1 e e' k' He Hnd Hsk Hae Hc1).
+    + exact (IHs2 e e' v' He Hnd Hsv Hae Hc2).
   - (* object *)
-    pose proof (wf_local_rel e e' _ s' He Hnd Hs Hae Han) as Hl.
-    inversion Hs as [| | | | | | | | | |id0 u0 ps ps1 ps' HFp HPp| | |]; subst. cbn [all_nodes] in Han |- *. rewrite Hl. cbn [andb].
+    destruct (rel_obj_inv _ _ _ _ Hs) as (ps1 & ps' & -> & HFp & HPp).
+    pose proof (wf_local_rel e e' _ _ He Hnd Hs Hae Han) as Hl.
+    cbn [all_nodes] in Han |- *. rewrite Hl. cbn [andb].
     apply andb_prop in Han as [_ Hc]. rewrite <- (forallb_perm _ ps1 ps' HPp).
     rewrite Forall_forall in H.
-    apply (forallb_f2_imp _ _ _ _ _ HFp); [|exact Hc].
-    intros a b Hin [_ Hr] Hca. inversion Hr as [t t' d r ri rin c df ex em dis reason Hst]; subst. cbn [snd p_type] in *.
-    rewrite <- H0 in *. exact (H a Hin e e' t' He Hnd Hst Hae Hca).
+    refine (forallb_f2_imp _ _ _ _ _ HFp _ Hc).
+    intros a b Hin [_ Hr] Hca.
+    exact (H a Hin e e' (p_type (snd b)) He Hnd (rel_prop_type _ _ Hr) Hae Hca).
   - (* one-of *)
-    pose proof (wf_local_rel e e' _ s' He Hnd Hs Hae Han) as Hl.
-    inversion Hs as [| | | | | | | | | | |ts ts1 ts' ik0 fld0 inl0 HFt HPt| |]; subst. cbn [all_nodes] in Han |- *. rewrite Hl. cbn [andb].
+    destruct (rel_oneof_inv _ _ _ _ _ Hs) as (ts1 & ts' & -> & HFt & HPt).
+    pose proof (wf_local_rel e e' _ _ He Hnd Hs Hae Han) as Hl.
+    cbn [all_nodes] in Han |- *. rewrite Hl. cbn [andb].
     apply andb_prop in Han as [_ Hc]. rewrite <- (forallb_perm _ ts1 ts' HPt).
     rewrite Forall_forall in H.
-    apply (forallb_f2_imp _ _ _ _ _ HFt); [|exact Hc].
+    refine (forallb_f2_imp _ _ _ _ _ HFt _ Hc).
     intros a b Hin [_ Hr] Hca. exact (H a Hin e e' (snd b) He Hnd Hr Hae Hca).
   - (* scope *)
-    pose proof (wf_local_rel e e' _ s' He Hnd Hs Hae Han) as Hl.
+    destruct (rel_scope_inv _ _ _ Hs) as (os1 & os' & -> & HFo & HPo).
+    pose proof (wf_local_rel e e' _ _ He Hnd Hs Hae Han) as Hl.
     pose proof (all_nodes_here _ _ _ Han) as Hl0. cbn [wf_local] in Hl0.
     apply andb_prop in Hl0 as [Hl0 _]. apply andb_prop in Hl0 as [Hnos _].
-    inversion Hs as [| | | | | | | | | | | | |os os1 os' root0 HFo HPo]; subst. cbn [all_nodes] in Han |- *. rewrite Hl. cbn [andb].
+    cbn [all_nodes] in Han |- *. rewrite Hl. cbn [andb].
     apply andb_prop in Han as [_ Hc]. rewrite <- (forallb_perm _ os1 os' HPo).
     rewrite Forall_forall in H.
     assert (Hae2 : all_env wf_local (env_enter e objs) = true).
     { unfold all_env in Hae. apply andb_prop in Hae as [_ Hx]. apply all_env_enter; [exact Hx | exact Hc]. }
-    apply (forallb_f2_imp _ _ _ _ _ HFo); [|exact Hc].
+    refine (forallb_f2_imp _ _ _ _ _ HFo _ Hc).
     intros a b Hin [_ Hr] Hca.
     exact (H a Hin (env_enter e objs) (env_enter e' os') (snd b)
              (rel_env_enter e e' objs os1 os' He HFo HPo) (nodup_env_enter e objs Hnd Hnos) Hr Hae2 Hca).
@@ -198,15 +224,15 @@ Lemma all_env_rel e e' : rel_env e e' -> nodup_env e = true -> all_env wf_local 
 Proof.
   intros He Hnd Hae. pose proof He as ((t1 & HF & HP) & Hx & Hor).
   pose proof Hae as Hae0. unfold all_env in Hae |- *. apply andb_prop in Hae as [Hs Hxx]. apply andb_true_intro. split.
-  - rewrite <- (forallb_perm _ t1 (e_self e') HP). apply (forallb_f2_imp _ _ _ _ _ HF); [|exact Hs].
+  - rewrite <- (forallb_perm _ t1 (e_self e') HP). refine (forallb_f2_imp _ _ _ _ _ HF _ Hs).
     intros a b _ [_ Hr] Hca. exact (all_nodes_rel (snd a) e e' (snd b) He Hnd Hr Hae0 Hca).
-  - apply (forallb_f2_imp _ _ _ _ _ Hx); [|exact Hxx].
+  - refine (forallb_f2_imp _ _ _ _ _ Hx _ Hxx).
     intros [n tab] [n' tab'] Hin [_ (u1 & HF2 & HP2)] Hca. cbn [fst snd] in *.
     assert (Hnt : nodup_str (map fst tab) = true).
     { unfold nodup_env in Hnd. apply andb_prop in Hnd as [_ Hnx]. rewrite forallb_forall in Hnx. exact (Hnx _ Hin). }
     unfold all_tab in Hca |- *. rewrite <- (forallb_perm _ u1 tab' HP2).
     assert (Hae2 : all_env wf_local (env_enter e tab) = true) by (apply all_env_enter; assumption).
-    apply (forallb_f2_imp _ _ _ _ _ HF2); [|exact Hca].
+    refine (forallb_f2_imp _ _ _ _ _ HF2 _ Hca).
     intros a b _ [_ Hr] Hcb.
     exact (all_nodes_rel (snd a) (env_enter e tab) (env_enter e' tab') (snd b)
              (rel_env_enter e e' tab u1 tab' He HF2 HP2) (nodup_env_enter e tab Hnd Hnt) Hr Hae2 Hcb).
